@@ -565,6 +565,13 @@ func runC13(c *Ctx) {
 					}
 				}
 			}
+			// paths on which the error is never consulted at all
+			if !onScanner {
+				if w := a.untestedPath(e, ins); w != "" {
+					c.fail("IO-FLOW", fname, construct, ins.Pos(), "the error of "+desc+" is not looked at on a path that continues normally: "+w+"; a fault reported by the call on that path is swallowed")
+					return
+				}
+			}
 			c.ok("IO-FLOW", fname, construct, ins.Pos(), how, "")
 		})
 	}
